@@ -62,8 +62,9 @@ var lCaseSeq int
 
 func lCaseDir(c *Ctx) string {
 	base := c.Tmp
-	if base == "" {
-		d, err := os.MkdirTemp("", "hlc10-")
+	if base == "" || len(base) > lRootLen-12 {
+		// no scratch directory given, or its path is too long for the fixed-length layout
+		d, err := os.MkdirTemp("/tmp", "hlc10-")
 		if err != nil {
 			panic(err)
 		}
@@ -704,7 +705,7 @@ func genC10(c *Ctx) {
 			c.Count("graph.n4")
 		}
 	} else {
-		for i := 0; i < 1200; i++ {
+		for i := 0; i < 2000; i++ {
 			c.lOne(4, uint(r.IntN(1<<16)), lOpt{}, 0)
 			c.Count("graph.n4")
 		}
